@@ -374,13 +374,17 @@ func verifProducer[T any](ctl *RunCtl, p *Producer, sw *schema.StreamWriter[T], 
 
 func emit[T any](n *nodeRT, ctl *RunCtl, chunks []T) *schema.StreamReader[T] {
 	if ctl.Faults[n.key] == PanicConverter {
-		if len(chunks) < 2 {
+		at := 2
+		if ctl.PanicAt > 2 {
+			at = ctl.PanicAt
+		}
+		for len(chunks) < at {
 			chunks = append(chunks, chunks...)
 		}
 		i := 0
 		return schema.StreamReaderWithConvert(schema.StreamReaderFromArray(chunks), func(c T) (T, error) {
 			i++
-			if i >= 2 {
+			if i >= at {
 				panic("verif-converter-panic@" + n.key)
 			}
 			return c, nil
